@@ -85,6 +85,7 @@ def run_ops(ops):
     out = []
     snap = b.format
     snap_then = table(snap)
+    bases = []  # every format that became a base: (format object, its table when it was finished)
     for op in ops:
         k, el = op["op"], op.get("el", "")
         ev = {"op": k, "el": el, "res": "ok", "cls": ""}
@@ -107,17 +108,20 @@ def run_ops(ops):
                 b.set_command_names()
             elif k == "build":
                 base = b.format
+                bases.append((base, table(base)))
                 b = ArgsFormatBuilder(base)
             elif k == "construct":
                 f = ArgsFormat([mk(kind, e) for kind, e in LISTS[el]], base)
                 base = f
+                bases.append((base, table(base)))
                 b = ArgsFormatBuilder(base)
         except Exception as e:  # noqa
             ev["res"] = "reject"
             ev["cls"] = type(e).__name__
         ev["tb"] = table(b)
-        ev["snapThen"] = snap_then
-        ev["snapNow"] = table(snap)  # the format object handed out before this operation
+        # the format object handed out before this operation, and every format stacked below the builder
+        ev["snapThen"] = [snap_then] + [t for _f, t in bases]
+        ev["snapNow"] = [table(snap)] + [table(f) for f, _t in bases]
         snap = b.format
         snap_then = table(snap)
         ev["tf"] = snap_then
